@@ -66,3 +66,10 @@ def patch_time(shim):
 
     bellows.ash.time = shim
     bellows.ezsp.protocol.time = shim
+    try:
+        import zigpy.application
+
+        if hasattr(zigpy.application, "time"):
+            zigpy.application.time = shim
+    except Exception:  # pragma: no cover
+        pass
